@@ -59,12 +59,12 @@ def plan_tasks(mod, prop, tier, seed, only=None):
         if sc.kind == "enum":
             ns = sc.shards or NCPU
             for sh in range(ns):
-                tasks.append(dict(subcheck=sc.name, shard=sh, nshards=ns, n=0, flavour=flavour))
+                tasks.append(dict(subcheck=sc.name, shard=sh, nshards=ns, n=0, flavour=flavour, hang_s=sc.hang_s))
         else:
             ns = sc.shards or max(1, min(NCPU, math.ceil(n / 40)))
             per = math.ceil(n / ns)
             for sh in range(ns):
-                tasks.append(dict(subcheck=sc.name, shard=sh, nshards=ns, n=per, flavour=flavour))
+                tasks.append(dict(subcheck=sc.name, shard=sh, nshards=ns, n=per, flavour=flavour, hang_s=sc.hang_s))
     for t in tasks:
         t.update(prop=prop, tier=tier, seed=seed, hseed=derive(seed, t["subcheck"], t["shard"]))
     return tasks
@@ -109,7 +109,7 @@ def run_tasks(tasks, scratch, open_known, wall_cap):
                     last = max(os.path.getmtime(job["journal"]), t0)
                 except OSError:
                     last = t0
-                if time.time() - last > HANG_S:
+                if time.time() - last > (job.get("hang_s") or HANG_S):
                     p.kill()
                     p.wait()
                     logf.close()
